@@ -109,7 +109,7 @@ def run(tier):
         for ev in res.get("events", []):
             ck.violation(ev["sig"], {"program": p["name"], "source": case["steps"][0][1], "what": ev["detail"]})
     return ck.finish("programs from the scope profiles compared with the reference model (oracle A), plus three wrapped "
-                     "variants of each (block / function / fiber) compared with the unwrapped run (oracle B); "
+                     "variants of each (block / function / fiber) compared with the unwrapped run (oracle B); the profiles include a scope-kind x variable-position x exit-path matrix, captured variables on fiber stacks and one closure over 200-260 variables; "
                      "non-trivial = distinct program containing closures that printed at least two lines")
 
 
